@@ -269,6 +269,9 @@ def run_e2e(case, stats, viol):
         lnames = [vworld.full_layer_name(spec, l) for l in tbl]
 
         def pick(pool):
+            if rng.random() < 0.06:
+                # the empty pattern matches every name
+                return rng.choice(['', '', '!'])
             s = rng.choice(pool)
             a = rng.randrange(len(s))
             b = rng.randint(a + 1, min(len(s), a + 8))
